@@ -2,7 +2,12 @@
 REGISTRY = {
     'C07': ['store_small_scope'],
     'C08': ['store_small_scope'],
+    'C01': ['docprops'],
+    'C04': ['docprops'],
+    'C11': ['docprops'],
+    'C20': ['docprops'],
     'C03': ['docops'],
+    'C10': ['docops'],
     'C05': ['docops'],
     'C06': ['docops'],
     'C09': ['docops'],
